@@ -148,6 +148,18 @@ def run(tier, seed):
     progs = runner.compile_programs(items, want=('machine', 'codegen'))
     pairs = [(p, a) for p, a in zip(progs, asts) if p.ok]
     st, kinds, cases = run_conform(chk, pairs, 10 if quick else 14, 1600 if quick else 9000, 'generated')
+    # bounded-exhaustive family: every small program of a compact grammar with all control constructs (a strided slice in the quick tier)
+    from props import enumfam
+    e_items, e_asts, e_info = enumfam.slice_(tier, seed)
+    e_progs = runner.compile_programs(e_items, want=('machine', 'codegen'))
+    e_pairs = [(p, a) for p, a in zip(e_progs, e_asts) if p.ok and not a.get('known_class') and not a.get('op8')]
+    est, ekinds, ecases = run_conform(chk, e_pairs, 7 if quick else 8, 1600 if quick else 9000, 'enumerated')
+    st['states'] += est['states']
+    st['transitions'] += est['transitions']
+    kinds.update(ekinds)
+    e_info.update(accepted=sum(1 for p in e_progs if p.ok), judged_against_source_semantics=len(e_pairs),
+                  left_out_known_finding_shape=sum(1 for p, a in zip(e_progs, e_asts) if p.ok and a.get('known_class')),
+                  left_out_open_point_OP8_shape=sum(1 for p, a in zip(e_progs, e_asts) if p.ok and a.get('op8') and not a.get('known_class')))
     sample = []
     for c in cases[:2]:
         sample.append({'program': c['p'].name, 'args': c['p'].args, 'source': c['p'].src, 'symbols': c['syms'], 'max_input_length': c['maxlen']})
@@ -156,10 +168,10 @@ def run(tier, seed):
     sel = [p for i, (p, a) in enumerate(pairs) if i % (5 if quick else 8) == 0]
     cst = c06.c_stage(chk, sel, rng, nctx=2, label='program') if sel else {'states': 0, 'transitions': 0, 'sweeps': 0, 'accepted': 0, 'binaries': 0}
     chk.coverage = {
-        'states': st['states'] + cst['states'], 'transitions': st['transitions'] + cst['transitions'], 'traces_validated_against_impl': len(pairs) + cst['accepted'],
+        'states': st['states'] + cst['states'], 'transitions': st['transitions'] + cst['transitions'], 'traces_validated_against_impl': len(pairs) + len(e_pairs) + cst['accepted'],
         'binaries_swept': cst['binaries'], 'single_step_sweeps': cst['sweeps'],
         'samples': sample, 'programs_accepted': len(pairs), 'programs_generated': len(items),
-        'report_kinds': dict(kinds), 'exhaustive': False,
+        'report_kinds': dict(kinds), 'exhaustive': False, 'enumerated_family': enumfam.describe(e_info),
         'rule': 'product search of (machine state, data, set of Lang configurations) over one representative per symbol cell, inputs up to the per-program length bound (search closes earlier when the product is finite)',
     }
     chk.assumptions = ['open points OP1-OP8 of DESIGN.md section 8 are admitted by the oracle', 'data effects of actions reuse the machine specification\'s action semantics (decided separately by C14/C15)',
